@@ -51,7 +51,9 @@ CHECKS["C13"] = {
             "filler - in the master part of an active read message or of a passive write message; thorough also two-byte "
             "numerics and 14 more filler layouts; filler bytes always differ from the value of the field behind them and "
             "give the opposite verdict for at least one stored vector of every shape, self-tested; combined and derived "
-            "conditions over filler layouts too) x field reference (each named field of the right kind, of the wrong kind, unnamed, a "
+            "conditions over filler layouts too; 5 layouts where the referenced message is defined WITHOUT destination "
+            "address and the condition supplies ZZ, so that ebusd derives a per-address clone which receives the bus data "
+            "- simple, alternative, derived and combined conditions incl. two conditions sharing one clone) x field reference (each named field of the right kind, of the wrong kind, unnamed, a "
             "missing name, missing message). Per resolvable configuration: BFS over histories of S<m>:<v> (store value "
             "vector v of message m: the judged field takes alphabet value v, every other field a rotated value so that a "
             "wrong field gives a wrong verdict), T (clock +1 s), Q (isAvailable, find by name, find by telegram). A state "
@@ -67,7 +69,8 @@ CHECKS["C13"] = {
             "after at least one operation.",
     "assumptions": [
         "time() is the only clock the code under test reads (interposed); its resolution is one second",
-        "values are stored the way BusHandler does it: Message::storeLastData(master, slave) of a complete telegram",
+        "values are stored the way BusHandler does it: the receiving message is looked up by MessageMap::find(telegram) "
+        "(then with any destination) and gets Message::storeLastData(master, slave) of a complete telegram",
         "numeric conditions are compared with the raw numeric value of integer types without divisor",
     ],
     "runs": [{
@@ -75,9 +78,9 @@ CHECKS["C13"] = {
         "deps": ["engines/msgmc/c13_config.h"],
         "variant": "plain", "libset": "core",
         "quick": {"parts": 16, "args": ["--depth", 6], "deadline": 400,
-                  "bounds": "1403 configurations (incl. filler / master-part layouts), depth 6, alphabet of 4 values per field, cross-check depth 4"},
+                  "bounds": "1550 configurations (incl. address-less referenced messages, filler / master-part layouts), depth 6, alphabet of 4 values per field, cross-check depth 4"},
         "thorough": {"parts": 16, "args": ["--depth", 8], "deadline": 900,
-                     "bounds": "2147 configurations (adds two-byte numeric fields and more filler layouts), depth 8, cross-check depth 4"},
+                     "bounds": "2324 configurations (adds two-byte numeric fields and more filler layouts), depth 8, cross-check depth 4"},
     }],
 }
 
@@ -86,7 +89,8 @@ CHECKS["C17"] = {
     "level": "model_checking",
     "level_text": "breadth-first search with canonical state hashing over all histories of poll-queue operations of the "
                   "real MessageMap (getNextPoll, setPollPriority + addPollMessage as the callers do it, "
-                  "addPollMessage(front), definition of a new poll message, MessageMap::remove, reload) up to the depth "
+                  "addPollMessage(front), definition of a new poll message, MessageMap::remove, reload, clear / destruction of a "
+                  "second MessageMap instance of the process) up to the depth "
                   "bound; from EVERY distinct reachable state an unperturbed run of 40*sum(p) selections of the real "
                   "getNextPoll is judged by the reference monitor (waiting bound per message, frequency proportional to "
                   "1/p, equal priorities equally often); in addition, from every state up to a smaller depth, an exhaustive "
@@ -107,7 +111,9 @@ CHECKS["C17"] = {
             "defined) x seconds the virtual clock advances per getNextPoll (1 or 0) x warm-up selections before the history "
             "(0 or 50: drift of g_lastPollOrder). Operations: G getNextPoll; P<k>:<p> if (m_k->setPollPriority(p)) "
             "addPollMessage(false, m_k); F<k> addPollMessage(true, m_k); A<k>:<p> define message k with priority p through "
-            "the CSV reader; X<k> MessageMap::remove(m_k); L clear() + load the initial definitions again. A state is the "
+            "the CSV reader; X<k> MessageMap::remove(m_k); L clear() + load the initial definitions again; C a SECOND MessageMap of the "
+            "process (never polled, like MainLoop::m_newlyDefinedMessages on 'read -def') is cleared and reads one definition; "
+            "Z that second map is destroyed and created anew (the poll clock g_lastPollOrder is process-global). A state is the "
             "history replayed on freshly loaded objects in a forked child; canonical state = per message (priority, "
             "pollOrder relative to the smallest, tie-break value: insertion counter verbatim / dense rank of poll times) + "
             "g_lastPollOrder relative + order of the queue vector; asserted to be reproduced on replay. Oracle on the "
